@@ -87,6 +87,8 @@ def main(tier, seed):
         chk.violation("build", "correspondence broken: build failed\n%s\n%s" % (st.get("harness_log", "")[-2000:], st.get("model_log", "")[-2000:]), nofail=True)
         chk.cov.update({"evaluations": 0, "distinct_nontrivial": 0})
         return chk.finish()
+    import p_dupadapt
+    p_dupadapt.stage(chk, "C17")
     cases = gen_cases(tier, seed)
     impl, ilog = vlib.run_impl(["async"], cases, timeout=900)
     replays = []
@@ -157,6 +159,9 @@ def main(tier, seed):
 
 
 def replay(path):
+    if "dupadapt case" in open(path).read():
+        import p_dupadapt
+        return p_dupadapt.replay(path)
     cases = [l.strip() for l in open(path) if len(l.split()) == 7 and l.split()[0].isdigit()]
     wcases = [l[5:].strip() for l in open(path) if l.startswith("ops: ")]
     wcases += [l.strip() for l in open(path) if l.split() and all(w in WOPS for w in l.split())]
